@@ -92,12 +92,22 @@ claim('C11',
       'DESIGN.md 4 C11')
 
 claim('C05',
-      'Message clause only: function and loop contracts on the real internal::WriteMessage with fputc/fwrite bound to a ghost '
+      '(1) Message clause: function and loop contracts on the real internal::WriteMessage with fputc/fwrite bound to a ghost '
       'model of the output. For every NUL-terminated message of any length: reads stay inside it, the bytes written are the '
       'message bytes in order plus one inserted space per empty line, no empty line (the format\'s terminator) is written '
-      'before the whole message has been written, and the output ends with the terminator line followed only by newlines.',
-      'Trusted: CBMC, extractor, the ghost output model (fputc/fwrite always succeed). Not decided: number round trip, counts '
-      'line, vectors and suffix sections of the writer (fmt / C++ templates); the reader side of those is C14.',
+      'before the whole message has been written, and the output ends with the terminator line followed only by newlines. '
+      '(2) Structure of the file: function and loop contracts on the real mp::WriteSolFile; every file.print("<fmt>", ...) is '
+      'expanded mechanically (R22) into the token sequence its format string denotes and a ghost acceptor - the grammar of the '
+      'text .sol format as the library\'s own reader parses it - checks every line: "Options", option count and options in order, '
+      'the counts block in the order constraints / duals / variables / primals, exactly nduals + nprimals value lines each '
+      'carrying value k at line k ({:.16}), "objno <objno-1> <status>", then the four suffix sets in kind order. '
+      '(3) Reader accepts what the writer writes: SOLReader2::sufheadcheck accepts every suffix header the writer can produce. '
+      'Two genuine writer/reader disagreements are recorded as known findings (fewer than 3 options; vbtol form of the options).',
+      'Trusted: CBMC, extractor, the ghost output model (fputc/fwrite/print always succeed; "{}" of an integer prints its '
+      'decimal digits, "{:.16}" a double with 16 significant digits). Not decided: number round trip itself (fmt formatting vs '
+      'strtod), the per-suffix block of internal::WriteSuffixes and SuffixValueWriter (iterator-based templates), binary '
+      'format. The reader side is proved total and memory-safe under C14. Replay: native writer -> reader round trip '
+      '(replay/c05_roundtrip.cc) over option counts, vector lengths, objective numbers and suffixes of every kind.',
       'DESIGN.md 4 C05')
 
 claim('C03',
